@@ -63,6 +63,12 @@ def spell_int(ty, value, style, env, tag):
         if signed and lo <= -value <= hi:
             return neg(const("N%s" % tag, -value))
         return lit_int(value)
+    if style in ("notlit", "notconst"):
+        # !N: the complement, -N - 1 on signed types and MAX - N on unsigned ones
+        n = (-value - 1) if signed else (hi - value)
+        if n < 0 or n > hi:
+            return lit_int(value)
+        return bnot(lit(str(n))) if style == "notlit" else bnot(const("C%s" % tag, n))
     if style == "paren":
         return par(lit_int(value))
     if style == "parenconst":
@@ -119,7 +125,7 @@ def lit_int(value):
 
 
 INT_STYLES = ["lit", "const", "negconst", "paren", "arith", "shift", "minmax", "call", "lit_us",
-              "parenconst", "mulsub", "bitor"]
+              "parenconst", "mulsub", "bitor", "notlit", "notconst"]
 
 
 # ---------------------------------------------------------------- integer guards
